@@ -58,7 +58,14 @@ class Obligations:
             return 'unsat'
         rep.distinct.add(hashlib.sha1((s.label + name + g.sexpr()[:2000]).encode()).hexdigest()[:12])
         before = s.prover.time
-        r = s.prover.check(list(assumptions) + [z3.Not(g)])
+        t_full = s.prover.t_inproc_ms
+        if len(axioms): s.prover.t_inproc_ms = min(t_full, 1500)       # pass 1 is only a fast path when axioms are available
+        ext = s.prover.use_external
+        if len(axioms): s.prover.use_external = False
+        try:
+            r = s.prover.check(list(assumptions) + [z3.Not(g)])
+        finally:
+            s.prover.t_inproc_ms = t_full; s.prover.use_external = ext
         model1 = r.model if r.status == 'sat' else None
         if r.status != 'unsat' and len(axioms):
             # second pass with the instantiated axioms about the uninterpreted atoms (inv, sqrt, sin/cos, ...) the goal mentions
